@@ -9,6 +9,7 @@ import Mathlib.Algebra.Order.Field.Basic
 import Mathlib.Tactic.Linarith
 import Mathlib.Tactic.Ring
 import Mathlib.Tactic.Module
+import Mathlib.Tactic.FieldSimp
 import Mathlib.Tactic.LinearCombination
 
 open OdlModel.Solvers
@@ -233,5 +234,136 @@ theorem sumAdj_lin {X Y : Type} [AddCommGroup X] [Module ℝ X] [AddCommGroup Y]
     simp only [sumAdj]
     rw [ih]
     simp only [lincomb, map_add, map_smul]; module
+
+
+def powerSelfReal (A : E →ₗ[ℝ] E) (isZero : ℝ → Bool) (isClose : ℝ → ℝ → Bool) :
+    PowerSelfP ℝ E := ⟨A, fun u => ‖u‖, isZero, isClose⟩
+
+theorem powerSelf_init_inv (A : E →ₗ[ℝ] E) (isZero : ℝ → Bool)
+    (hz : ∀ k, k = 0 → isZero k = true) (isClose : ℝ → ℝ → Bool) (x0 : E) :
+    PowerInv1 ((powerSelfReal A isZero isClose).init x0) := by
+  unfold PowerInv1 PowerSelfP.init
+  simp only [powerSelfReal]
+  by_cases h : isZero ‖x0‖ = true
+  · simp [h]
+  · simp only [h, Bool.false_eq_true, if_false]
+    intro _ _
+    exact norm_normalize x0 (fun h0 => h (hz _ h0))
+
+theorem powerSelf_step (A : E →ₗ[ℝ] E) (c : ℝ)
+    (hA : ∀ u, ‖A u‖ ≤ c * ‖u‖) (isZero : ℝ → Bool)
+    (hz : ∀ k, k = 0 → isZero k = true) (isClose : ℝ → ℝ → Bool) (s : PowerS ℝ E) :
+    (PowerInv1 s → s.done = false → PowerInv2 c ((powerSelfReal A isZero isClose).step s)) ∧
+    (PowerInv2 c s → PowerInv2 c ((powerSelfReal A isZero isClose).step s)) := by
+  have key : (s.failed = false → s.done = false → ‖s.x‖ = 1) → (s.done = true → s.failed = false → s.opnorm ≤ c) →
+      PowerInv2 c ((powerSelfReal A isZero isClose).step s) := by
+    intro h1 h2
+    unfold PowerSelfP.step PowerInv2
+    simp only [powerSelfReal]
+    by_cases hdf : (s.done || s.failed) = true
+    · simp only [hdf, if_true]
+      intro hf
+      rcases Bool.or_eq_true _ _ |>.mp hdf with hd | hf'
+      · exact ⟨fun h => by simp [hd] at h, h2 hd hf⟩
+      · simp [hf'] at hf
+    · simp only [hdf, Bool.false_eq_true, if_false]
+      have hd : s.done = false := by cases hh : s.done <;> simp_all
+      have hf : s.failed = false := by cases hh : s.failed <;> simp_all
+      have hx := h1 hf hd
+      have hest : ‖A s.x‖ ≤ c := by have := hA s.x; rwa [hx, mul_one] at this
+      by_cases hzn : isZero ‖A s.x‖ = true
+      · simp [hzn]
+      · simp only [hzn, Bool.false_eq_true, if_false]
+        by_cases hcl : isClose ‖A s.x‖ s.opnorm = true
+        · simp only [hcl, if_true]; intro _; exact ⟨fun h => by simp at h, hest⟩
+        · simp only [hcl, Bool.false_eq_true, if_false]; intro _
+          exact ⟨fun _ => norm_normalize _ (fun h0 => hzn (hz _ h0)), hest⟩
+  constructor
+  · intro h1 hd
+    exact key h1 (fun h => by simp [hd] at h)
+  · intro h2
+    exact key (fun hf hd => (h2 hf).1 hd) (fun _ hf => (h2 hf).2)
+
+/-- extended invariant of `conjugate_gradient`: additionally `⟪A p, r⟫ = ⟪A p, p⟫`
+(`p − r` is a multiple of the previous direction, which is conjugate to `p`). -/
+def CgInv2 (A : E →ₗ[ℝ] E) (b : E) (s : CgS ℝ E) : Prop :=
+  CgInv A b s ∧ ⟪A s.p, s.r⟫ = ⟪A s.p, s.p⟫
+
+theorem cg_init_inv2 (A : E →ₗ[ℝ] E) (b x0 junk : E) : CgInv2 A b ((cgReal A b).init x0 junk) :=
+  ⟨cg_init_inv A b x0 junk, by simp only [CgP.init, cgReal]⟩
+
+/-- One executed loop body (not stopped, `⟪p, A p⟫ ≠ 0`, `r ≠ 0`): the new residual is orthogonal
+to the old one and to the old direction, the new direction is `A`-conjugate to the old one, and
+the extended invariant is re-established. -/
+theorem cg_step2 (A : E →ₗ[ℝ] E) (hsym : ∀ u v, ⟪A u, v⟫ = ⟪u, A v⟫) (b : E) (s : CgS ℝ E)
+    (h : CgInv2 A b s) (hst : s.stopped = false) (hip : ⟪s.p, A s.p⟫ ≠ 0) (hr : s.sqnormROld ≠ 0) :
+    let t := (cgReal A b).step s
+    CgInv2 A b t ∧ ⟪t.r, s.r⟫ = 0 ∧ ⟪t.r, s.p⟫ = 0 ∧ ⟪t.p, A s.p⟫ = 0 := by
+  obtain ⟨⟨hrr, hrp, hsq⟩, h5⟩ := h
+  intro t
+  have ht : t = (cgReal A b).step s := rfl
+  unfold CgP.step at ht
+  simp only [hst, Bool.false_eq_true, if_false, cgReal, hip] at ht
+  set ipd := ⟪s.p, A s.p⟫ with hipd
+  set α := s.sqnormROld / ipd with hα
+  have hαi : α * ipd = ‖s.r‖ ^ 2 := by rw [hα, hsq]; field_simp
+  have hα0 : α ≠ 0 := by rw [hα]; exact div_ne_zero hr hip
+  have hr' : lincomb (1 : ℝ) s.r (-α) (A s.p) = s.r - α • A s.p := by simp only [lincomb]; module
+  rw [hr'] at ht
+  set r' := s.r - α • A s.p with hr'd
+  have hsqr : s.sqnormROld = ‖s.r‖ ^ 2 := hsq
+  -- ⟪r', r⟫ = 0
+  have o1 : ⟪r', s.r⟫ = 0 := by
+    rw [hr'd, inner_sub_left, inner_smul_left, real_inner_self_eq_norm_sq, h5, real_inner_comm, ← hipd]
+    simp only [conj_trivial]; linarith
+  -- ⟪r', p⟫ = 0
+  have o2 : ⟪r', s.p⟫ = 0 := by
+    rw [hr'd, inner_sub_left, inner_smul_left, hrp, real_inner_comm (s.p) (A s.p), ← hipd]
+    simp only [conj_trivial]; linarith
+  -- ⟪r', A p⟫ = -‖r'‖² / α
+  have o3 : α * ⟪r', A s.p⟫ = -‖r'‖ ^ 2 := by
+    have : α • A s.p = s.r - r' := by rw [hr'd]; abel
+    have h2 : ⟪r', α • A s.p⟫ = ⟪r', s.r⟫ - ⟪r', r'⟫ := by rw [this, inner_sub_right]
+    rw [inner_smul_right, o1, real_inner_self_eq_norm_sq] at h2
+    linarith
+  set β := ‖r'‖ ^ 2 / s.sqnormROld with hβ
+  have hβi : β * ‖s.r‖ ^ 2 = ‖r'‖ ^ 2 := by
+    rw [hβ, hsq]; exact div_mul_cancel₀ _ (by rw [← hsq]; exact hr)
+  -- ⟪p', A p⟫ = 0
+  have o4 : ⟪lincomb (1 : ℝ) r' β s.p, A s.p⟫ = 0 := by
+    simp only [lincomb, one_smul, inner_add_left, inner_smul_left, conj_trivial, ← hipd]
+    have e1 : α * (⟪r', A s.p⟫ + β * ipd) = 0 := by
+      have : α * (β * ipd) = β * ‖s.r‖ ^ 2 := by rw [← hαi]; ring
+      rw [mul_add, o3, this, hβi]; ring
+    rcases mul_eq_zero.mp e1 with h0 | h0
+    · exact absurd h0 hα0
+    · exact h0
+  have hx' : lincomb (1 : ℝ) s.x α s.p = s.x + α • s.p := by simp only [lincomb]; module
+  rw [hx'] at ht
+  have hp' : lincomb (1 : ℝ) r' β s.p = r' + β • s.p := by simp only [lincomb]; module
+  rw [hp'] at o4 ht
+  rw [ht]
+  refine ⟨⟨⟨?_, ?_, rfl⟩, ?_⟩, o1, o2, o4⟩
+  · show r' = b - A (s.x + α • s.p)
+    rw [hr'd, hrr, map_add, map_smul]; abel
+  · show ⟪r', r' + β • s.p⟫ = ‖r'‖ ^ 2
+    rw [inner_add_right, inner_smul_right, o2, mul_zero, add_zero, real_inner_self_eq_norm_sq]
+  · show ⟪A (r' + β • s.p), r'⟫ = ⟪A (r' + β • s.p), r' + β • s.p⟫
+    rw [inner_add_right (A (r' + β • s.p)), inner_smul_right, hsym (r' + β • s.p) s.p, o4, mul_zero,
+      add_zero]
+
+/-- `forward_backward_pd` on the scalar bilinear problem `min_x ind_{b}(c x)`:
+`f = 0` (prox = id), `h = 0`, `g = ind_{b}` (`prox_{σ g*}(w) = w − σ b`), `L = c·`, `m = 1`. -/
+def fbpdBilinear {K : Type} [Field K] (c b τ σ : K) : FbpdP K K K :=
+  ⟨1, fun _ x => c * x, fun _ y => c * y, id, fun _ => 0, fun _ w => w - σ * b, τ, fun _ => σ⟩
+
+/-- invariant of the CODED (aliased) step: `σ e² + τ v² − σ τ c e v`, `e = x − x*` -/
+def fbpdQ {K : Type} [Field K] (c τ σ xs : K) (s : FbpdS K K) : K :=
+  σ * (s.x - xs) ^ 2 + τ * (s.v 0) ^ 2 - σ * τ * c * (s.x - xs) * s.v 0
+
+/-- Lyapunov function of the DOCUMENTED step (`στ` times the `M`-norm of PDHG):
+`σ e² − 2 σ τ c e v + τ v²`. -/
+def fbpdN {K : Type} [Field K] (c τ σ : K) (e v : K) : K :=
+  σ * e ^ 2 - 2 * σ * τ * c * e * v + τ * v ^ 2
 
 end OdlModel.Solvers
